@@ -111,7 +111,9 @@ def hitBlocks (n cs : Nat) (nm : Norm) : List Nat :=
 structure Axis where
   /-- target length (`target.shape[i]`) -/
   n : Nat
-  /-- target chunk size (`target.chunks[i]`) -/
+  /-- target chunk size: `chunks = getattr(target, "shards", None) or target.chunks` — the shard size for a
+  sharded target (commit b3e0575: alignment, output blocks, rechunk of the source and write slots all use it),
+  else the stored chunk size; see `regionChunk` -/
   cs : Nat
   /-- the region's slice for this axis -/
   sl : PSlice
@@ -120,6 +122,12 @@ structure Axis where
   /-- source chunk size (`source.chunksize[i]`) -/
   sc : Nat
   deriving DecidableEq, Repr
+
+/-- `getattr(target, "shards", None) or target.chunks` along one axis -/
+def regionChunk (chunk : Nat) (shard : Option Nat) : Nat :=
+  match shard with
+  | some s => s
+  | none => chunk
 
 /-- The alignment test of `_store_array`, on the *raw* slice fields:
 `(start is not None and start % cs != 0) or (stop is not None and stop % cs != 0 and stop != shape[i])`. -/
